@@ -277,6 +277,9 @@ theorem Lib.buf_unsigned (L : Lib) (grouped : Bool) (bits : Nat) (f : FileSpec) 
 /-- bytes of a string (all texts here are ASCII) -/
 def bytesOf (s : String) : List Byte := s.toList.map Char.toNat
 
+/-- text of a byte list (inverse of `bytesOf` on strings) -/
+def textOf (bs : List Byte) : String := String.ofList (bs.map Char.ofNat)
+
 theorem specText_plain (g : Byte) (v : Int) : specText false g v = bytesOf (toString v) := by
   unfold specText body bytesOf digitBytes
   rw [Int.toString_eq_repr, Int.repr_eq_if]
